@@ -238,12 +238,14 @@ def run_batch(run, frames, label, wit_extra=None, followups=(), big_device=False
             if ap["type"] == W.COMPLEX_ACK and ap["seg"] and len(replies.get(ap["invoke"], [])) >= 1 and not any(
                     cc.get("invoke") == ap["invoke"] for cc in classes[1:] if cc["class"].startswith("well-framed")):
                 continue            # retransmission of the first segment of a segmented answer
-            if ap["type"] == W.ABORT and not ap.get("srv") and not any(
-                    cc.get("apci", {}).get("type") == W.ABORT and cc["apci"].get("invoke") == ap["invoke"] for cc in classes2):
-                # (the library sends a client's own abort back to it when it ends a segmented exchange: an echo, not an answer)
+            if ap["type"] == W.ABORT and not ap.get("srv"):
                 # an abort that answers a request comes from the serving side and says so; with the bit clear the requester
-                # looks for a transaction in which it is the server and finds none
-                run.violation("abort-answering-a-request-has-the-server-bit-clear", dict(wit, invoke=ap["invoke"], reason=ap.get("reason")))
+                # looks for a transaction in which it is the server - and finds none, or one that has nothing to do with this
+                # (a request of the device to that station with the same invoke id).  That includes a client's own abort sent
+                # back to it
+                echo = any(cc.get("apci", {}).get("type") == W.ABORT and cc["apci"].get("invoke") == ap["invoke"] for cc in classes2)
+                run.violation("clients-abort-sent-back-to-it" if echo else "abort-answering-a-request-has-the-server-bit-clear",
+                              dict(wit, invoke=ap["invoke"], reason=ap.get("reason")))
                 return False
             replies.setdefault(ap["invoke"], []).append(ap)
             run.seen("reply_kinds", {2: "simple-ack", 3: "complex-ack", 5: "error", 6: "reject", 7: "abort"}[ap["type"]])
